@@ -168,9 +168,41 @@ func (w *c19World) checkReleased(mode string, raw *vrt.Conn, step int) {
 	}
 }
 
+// c19Deep parses "stop-reading-<n>-then-close" / "stop-reading-<n>-then-reset": a client that
+// pipelines n requests without reading one reply (so that the server's Write parks with n-1
+// requests still unread behind it) and then closes or resets.
+func c19Deep(mode string) (n int, how string, ok bool) {
+	if _, err := fmt.Sscanf(mode, "stop-reading-%d-then-%s", &n, &how); err != nil || n <= 0 {
+		return 0, "", false
+	}
+	return n, how, how == "close" || how == "reset"
+}
+
 func (w *c19World) ending(mode string, step int) {
 	plain := ":6379"
 	tlsAddr := ":6380"
+	if n, how, ok := c19Deep(mode); ok {
+		cl, o := sched.Dial(plain)
+		if o.Status != "ok" {
+			w.fail("dial-refused", fmt.Sprintf("ending #%d (%s): plain dial refused", step, mode))
+			return
+		}
+		raw := cl.Raw()
+		cl.Do("SET", "k", "v")
+		raw.Capacity = 8
+		for i := 0; i < n; i++ {
+			cl.Send(resp.Cmd("ECHO", "0123456789").Bytes())
+		}
+		vrt.WaitQuiet()
+		if how == "close" {
+			cl.Close()
+		} else {
+			raw.Reset()
+		}
+		vrt.WaitQuiet()
+		w.checkReleased(mode, raw, step)
+		return
+	}
 	switch mode {
 	case "eof-boundary", "eof-mid-request", "reset", "quit", "malformed", "stop-reading-then-reset", "nested-request-then-eof":
 		cl, o := sched.Dial(plain)
@@ -374,15 +406,19 @@ func (w *c19World) stopRace() {
 				c.Recv()
 			}
 		})
-	case "write-parked", "tls-write-parked":
+	case "write-parked", "tls-write-parked", "write-parked-150":
 		// a client that pipelines and stops reading: the server's reply Write is parked
 		// on the full connection when Stop runs
-		if w.cs.StopRace == "write-parked" {
+		if w.cs.StopRace == "write-parked" || w.cs.StopRace == "write-parked-150" {
 			cl, o := sched.Dial(":6379")
 			if o.Status == "ok" {
 				racers = append(racers, cl.Raw())
 				cl.Raw().Capacity = 8
-				for i := 0; i < 6; i++ {
+				depth := 6
+				if w.cs.StopRace == "write-parked-150" {
+					depth = 150
+				}
+				for i := 0; i < depth; i++ {
 					cl.Send(resp.Cmd("ECHO", "0123456789").Bytes())
 				}
 				vrt.WaitQuiet()
@@ -621,6 +657,11 @@ func c19Run(c *fw.Ctx) {
 		{Kind: "sched", Background: 0, Endings: cycle, StopAtEnd: false},
 		// many connections open at once (whatever the registry does when it grows), then Stop
 		{Kind: "sched", Background: 70, Endings: []string{"eof-boundary", "reset", "tls-valid-then-reset"}, StopAtEnd: true},
+		// pipeline ladder of the client that never reads: 20, 70, 150 requests behind the parked
+		// Write (whatever queue the server puts between executing and writing, it fills up)
+		{Kind: "sched", Background: 1, Endings: []string{"stop-reading-20-then-close", "stop-reading-70-then-reset", "stop-reading-150-then-close", "stop-reading-70-then-close", "stop-reading-150-then-reset"}, StopAtEnd: true},
+		{Kind: "sched", Background: 0, Endings: []string{"stop-reading-150-then-close"}, StopAtEnd: false},
+		{Kind: "sched", Background: 1, StopRace: "write-parked-150", Endings: []string{"stop:write-parked-150"}},
 	}
 	if !phase("p1_stop_races_bound2", races, 2) || !phase("p1_endings_len2_bound1", len12, 1) || !phase("p1_churn_bound0", churn, 0) || !c.Thorough() {
 		return
@@ -705,7 +746,7 @@ func init() {
 	fw.Register(&fw.Prop{
 		ID:          "C19",
 		Level:       "fault_enumeration",
-		Rule:        "(sequential) representative requests, alone and behind a PING: end of stream at EVERY byte offset with EOF, with reset, and with reset where the transport's Close reports an error although it closes (TLS peer gone), a Write failing from call 1..3, QUIT at each pipeline position (also with a failing write), every single-byte substitution of 18 valid streams; oracle: loop returned, transport closed, registry empty. (scheduled) a server with plain and TLS port started with Start(), 0..2 background connections, then every sequence of 1..2 endings out of {EOF at a boundary, EOF inside a request, reset inside a request, QUIT, malformed frame, client that stops reading until the server's Write parks and then resets, TLS garbage handshake, TLS abort after ClientHello, TLS certificate rejected by the common-name rule, valid TLS client then reset, valid TLS client then orderly close}, real crypto/tls, every schedule with <=1 deviation (thorough phases, in order: sequences of 3 endings on the default schedule, Stop races at bound 3, sequences of <=2 endings at bound 2, sequences of 3 at bound 1; each complete only when its <phase>_done counter equals <phase>_scenarios); after each ending, at quiescence: the server closed that socket, no server goroutine is parked on it, the registry holds exactly the background connections, which are still served; finally Stop releases everything (sockets, goroutines, registry, listeners). Plus churn (every ending mode three times in a row, forwards and pairwise backwards, with two connections kept open, and three endings next to 70 open connections followed by Stop; default schedule; thorough: one deviation), and Stop racing with a connecting client, a client still in the accept backlog, a client with a command in flight, a client in the TLS handshake one stalled before its ClientHello, a plain and a TLS client that pipelined requests and stopped reading so that the server's reply Write is parked, and Stop after a second Start() on the running server, which must leave registry and connections as they were (deviation bound 2). A connection loop that spins or waits for a lock it holds itself is reported as a goroutine that never ends. Stop scenarios also with the ports disabled in the configuration (by the API, by CONFIG SET) before Stop. Stop after an application goroutine enumerated the registry while clients came and went (vrt.RWMutex excludes new readers while a writer waits, as sync.RWMutex does, so recursive read locking deadlocks). The in-memory connections implement CloseWrite (half close), so a server that lingers after QUIT until the client closes is seen holding socket and goroutine. Six endings are also run beside a client that never reads its replies.",
+		Rule:        "(sequential) representative requests, alone and behind a PING: end of stream at EVERY byte offset with EOF, with reset, and with reset where the transport's Close reports an error although it closes (TLS peer gone), a Write failing from call 1..3, QUIT at each pipeline position (also with a failing write), every single-byte substitution of 18 valid streams; oracle: loop returned, transport closed, registry empty. (scheduled) a server with plain and TLS port started with Start(), 0..2 background connections, then every sequence of 1..2 endings out of {EOF at a boundary, EOF inside a request, reset inside a request, QUIT, malformed frame, client that stops reading until the server's Write parks and then resets, TLS garbage handshake, TLS abort after ClientHello, TLS certificate rejected by the common-name rule, valid TLS client then reset, valid TLS client then orderly close}, real crypto/tls, every schedule with <=1 deviation (thorough phases, in order: sequences of 3 endings on the default schedule, Stop races at bound 3, sequences of <=2 endings at bound 2, sequences of 3 at bound 1; each complete only when its <phase>_done counter equals <phase>_scenarios); after each ending, at quiescence: the server closed that socket, no server goroutine is parked on it, the registry holds exactly the background connections, which are still served; finally Stop releases everything (sockets, goroutines, registry, listeners). Plus churn (every ending mode three times in a row, forwards and pairwise backwards, with two connections kept open, and three endings next to 70 open connections followed by Stop; default schedule; thorough: one deviation), and Stop racing with a connecting client, a client still in the accept backlog, a client with a command in flight, a client in the TLS handshake one stalled before its ClientHello, a plain and a TLS client that pipelined requests and stopped reading so that the server's reply Write is parked, and Stop after a second Start() on the running server, which must leave registry and connections as they were (deviation bound 2). A connection loop that spins or waits for a lock it holds itself is reported as a goroutine that never ends. Stop scenarios also with the ports disabled in the configuration (by the API, by CONFIG SET) before Stop. Stop after an application goroutine enumerated the registry while clients came and went (vrt.RWMutex excludes new readers while a writer waits, as sync.RWMutex does, so recursive read locking deadlocks). The in-memory connections implement CloseWrite (half close), so a server that lingers after QUIT until the client closes is seen holding socket and goroutine. Six endings are also run beside a client that never reads its replies. Pipeline ladder of the client that never reads (churn phase): 20, 70 and 150 requests behind the parked Write, then close or reset, and Stop with 150 behind the parked Write.",
 		Assumptions: []string{"the in-memory transport is the only kind of descriptor the framework opens besides listeners: 'descriptor released' = Close called on it", "10^4-cycle churn and /proc/self/fd counts are replaced by zero residue per ending from every reachable small registry state"},
 		Run:         c19Run,
 		Replay:      c19Replay,
